@@ -108,6 +108,12 @@ type World struct {
 
 	traceMode bool
 
+	// TrackStale keeps pre-detachment handles for stale-handle mutations (C11); FormerOnly, when set by a
+	// stale mutation of a container that has since been re-attached elsewhere through another handle,
+	// restricts the oracles to the former parent (two handles of one container are otherwise outside the claims).
+	TrackStale bool
+	FormerOnly *Cont
+
 	TrackCommits bool // keep a model+ledger snapshot at every commit (crash oracle)
 	KeyStorage bool // include storage-layer counters in the state key
 	StrictErr bool // also compare error categories/types of rejected requests (C18)
@@ -544,12 +550,27 @@ func (w *World) handBack(s atree.Storable, old MV, keep bool, what string) error
 	}
 	u, _ := Unwrap(old)
 	if c, ok := u.(*Cont); ok {
+		oldParent := c.Parent
 		c.Parent = nil
 		c.Wrap = 0
 		if keep {
 			// Detached: it must now be an independently stored value.
 			if _, isRef := unwrapStorable(s).(atree.SlabIDStorable); !isRef {
 				return violf("%s handed back container c%d as %T, want a slab reference", what, c.Serial, unwrapStorable(s))
+			}
+			if w.TrackStale && (c.Arr != nil || c.Map != nil) {
+				// keep the pre-detachment handle as the stale one; continue with the handle a caller
+				// gets from the value handed back
+				c.StaleArr, c.StaleMap, c.FormerParent = c.Arr, c.Map, oldParent
+				if v, err := s.StoredValue(w.St); err == nil {
+					switch h := unwrapReal(v).(type) {
+					case *atree.Array:
+						c.Arr = h
+					case *atree.OrderedMap:
+						c.Map = h
+					}
+					w.dropDescendantHandles(c)
+				}
 			}
 			return nil
 		}
@@ -1131,6 +1152,20 @@ func (w *World) apply(o Op) error {
 			return err
 		}
 		return w.iterMut(c, o)
+
+	case "stalemut":
+		c := w.Conts[o.C]
+		if c.Dead || (c.StaleArr == nil && c.StaleMap == nil) {
+			return fmt.Errorf("harness: stalemut of c%d without a stale handle", o.C)
+		}
+		w.Serial++
+		if c.IsMap {
+			_, _ = c.StaleMap.Set(tu.CompareValue, tu.GetHashInput, ToAtree(w.KeyOf(77)), ToAtree(MakeSimple("t", w.Serial)))
+		} else {
+			_ = c.StaleArr.Append(ToAtree(MakeSimple("t", w.Serial)))
+		}
+		w.FormerOnly = c.FormerParent
+		return nil
 
 	case "iterget":
 		c := w.Conts[o.C]
